@@ -229,8 +229,11 @@ def full_ops(case, res):
 
 
 def strict(case):
-    """with a lock timeout below a millisecond a timeout on a free lock is legitimate (select may see both ready)"""
-    return case["mode"] != "stress" and case["timeout_ms"] >= 1
+    """Only with a long lock timeout (>= 100 ms) is a timeout on a free lock taken as a disagreement.  With 0 / 1 ns `select`
+    may see the timer and the free lock ready together; with a few ms a loaded machine can deschedule the goroutine between
+    time.After and select for longer than the timeout: the code then legitimately aborts, and the model's ETimeout is
+    enabled whenever the caller does not hold the lock."""
+    return case["mode"] != "stress" and case["timeout_ms"] >= 100
 
 
 def anomalies(case, out):
